@@ -7,6 +7,7 @@ import copy
 import functools
 import inspect
 import sys
+import types
 from collections.abc import Callable
 from fractions import Fraction
 from typing import Any
@@ -1223,11 +1224,21 @@ class BytecodeInterpreter(Interpreter):
         # A captured list lives in the compiled function's namespace, which is
         # cached: a store into it (`xs[0] = ...`) would otherwise survive the
         # call and change what the next one computes.  Each call starts from the
-        # captured value again.
-        for var in func.ast.free_vars:
-            name = str(var)
-            if isinstance(fn.__globals__.get(name), list | tuple):
-                fn.__globals__[name] = to_value(func.env[name])
+        # captured value again -- in a namespace of its own, so that another
+        # evaluation of the same function (nested through a primitive, or on
+        # another thread) does not see this one's stores.
+        captured = {
+            str(var): to_value(func.env[str(var)])
+            for var in func.ast.free_vars
+            if isinstance(fn.__globals__.get(str(var)), list | tuple)
+        }
+        if captured:
+            call = types.FunctionType(
+                fn.__code__, {**fn.__globals__, **captured},
+                fn.__name__, fn.__defaults__, fn.__closure__,
+            )
+            call.__kwdefaults__ = fn.__kwdefaults__
+            fn = call
         # compute the context to use during evaluation
         ctx = self._func_ctx(func.ast, ctx)
         if convert:
